@@ -735,36 +735,50 @@ impl<T: Serialize + for<'de> Deserialize<'de> + Clone + PartialEq + Send + Sync 
             }
         };
 
-        // Write batch to WAL
-        for (key, value) in changes {
-            let serialized_value = value
-                .as_ref()
-                .map(|v| postcard::to_stdvec(v))
-                .transpose()
-                .map_err(|e| {
-                    P2PError::Storage(StorageError::Database(
-                        format!("Failed to serialize value: {e}").into(),
-                    ))
-                })?;
+        // Write the batch to the WAL as ONE record (all changes, sorted by key,
+        // in the value field), so that a crash in the middle of the write cannot
+        // leave a partially applied batch behind
+        let mut changes = changes;
+        changes.sort_by(|a, b| a.0.cmp(&b.0));
+
+        if !changes.is_empty() {
+            let mut encoded: Vec<(String, Option<Vec<u8>>)> = Vec::with_capacity(changes.len());
+            for (key, value) in &changes {
+                let serialized_value = value
+                    .as_ref()
+                    .map(|v| postcard::to_stdvec(v))
+                    .transpose()
+                    .map_err(|e| {
+                        P2PError::Storage(StorageError::Database(
+                            format!("Failed to serialize value: {e}").into(),
+                        ))
+                    })?;
+                encoded.push((key.clone(), serialized_value));
+            }
+            let payload = postcard::to_stdvec(&encoded).map_err(|e| {
+                P2PError::Storage(StorageError::Database(
+                    format!("Failed to serialize batch: {e}").into(),
+                ))
+            })?;
 
             let wal_entry = self.create_wal_entry(
                 transaction_id,
                 TransactionType::Batch,
-                key.clone(),
-                serialized_value,
+                String::new(),
+                Some(payload),
             )?;
 
-            {
-                let mut writer = self.wal_writer.lock().map_err(|_| {
-                    P2PError::Storage(StorageError::LockPoisoned(
-                        "mutex lock failed".to_string().into(),
-                    ))
-                })?;
-                writer.write_entry(&wal_entry)?;
-            }
+            let mut writer = self.wal_writer.lock().map_err(|_| {
+                P2PError::Storage(StorageError::LockPoisoned(
+                    "mutex lock failed".to_string().into(),
+                ))
+            })?;
+            writer.write_entry(&wal_entry)?;
+        }
 
-            // Notify listeners
-            self.notify_listeners(&key, value.as_ref()).await;
+        // Notify listeners
+        for (key, value) in &changes {
+            self.notify_listeners(key, value.as_ref()).await;
         }
 
         Ok(())
@@ -1075,7 +1089,50 @@ impl<T: Serialize + for<'de> Deserialize<'de> + Clone + PartialEq + Send + Sync 
 
             // Apply entry to state
             match entry.transaction_type {
-                TransactionType::Upsert | TransactionType::Batch => {
+                TransactionType::Batch => {
+                    // One record carries the whole batch: apply all of it or none
+                    let decoded = entry
+                        .value
+                        .as_deref()
+                        .and_then(|payload| {
+                            postcard::from_bytes::<Vec<(String, Option<Vec<u8>>)>>(payload).ok()
+                        })
+                        .and_then(|changes| {
+                            changes
+                                .into_iter()
+                                .map(|(key, value)| match value {
+                                    Some(bytes) => postcard::from_bytes::<T>(&bytes)
+                                        .ok()
+                                        .map(|value| (key, Some(value))),
+                                    None => Some((key, None)),
+                                })
+                                .collect::<Option<Vec<(String, Option<T>)>>>()
+                        });
+                    match decoded {
+                        Some(changes) => {
+                            let mut state_guard = self.state.write().map_err(|_| {
+                                P2PError::Storage(StorageError::LockPoisoned(
+                                    "write lock failed".to_string().into(),
+                                ))
+                            })?;
+                            for (key, value) in changes {
+                                match value {
+                                    Some(value) => {
+                                        state_guard.insert(key, value);
+                                    }
+                                    None => {
+                                        state_guard.remove(&key);
+                                    }
+                                }
+                                entries_recovered += 1;
+                            }
+                        }
+                        None => {
+                            stats.entries_failed += 1;
+                        }
+                    }
+                }
+                TransactionType::Upsert => {
                     if let Some(value_data) = entry.value {
                         match postcard::from_bytes::<T>(&value_data) {
                             Ok(value) => {
